@@ -136,6 +136,13 @@ def bracketed(b):
     return True
 
 
+def must_restore(b):
+    """The whole observable state must be as before: every top-level statement is a
+    configuration block (restores everything whatever its body does - C20_config_restores_all)
+    or is bracketed (C20_context_restores)."""
+    return all(st[0] == "config" or bracketed([st]) for st in b)
+
+
 def prelude(rng):
     r = rng.random()
     if r < 0.3:
@@ -222,7 +229,7 @@ def run(chk, model_ok):
         if r["exc"] and r["exc"].startswith("UNEXPECTED"):
             chk.fail("property", "unexpected-exception",
                      f"block raised {r['exc']}", {"input": c, "observed": r})
-        if bracketed(c["b"]):
+        if must_restore(c["b"]):
             if eff(r["e0"]) != eff(r["e1"]) or r["e1"][3] != 0:
                 sig = classify(c, r)
                 chk.fail("property", sig,
@@ -239,7 +246,7 @@ def run(chk, model_ok):
         for i in bad[:50]:
             c, r = done[i]
             # a disagreement on a case the property oracle already rejected is explained by it
-            if bracketed(c["b"]) and (eff(r["e0"]) != eff(r["e1"]) or r["e1"][3] != 0):
+            if must_restore(c["b"]) and (eff(r["e0"]) != eff(r["e1"]) or r["e1"][3] != 0):
                 continue
             chk.fail("correspondence", "model-vs-impl",
                      "model and implementation disagree on the final state/outcome of a block",
@@ -296,6 +303,7 @@ def run(chk, model_ok):
         "families": fam,
         "raised_cases": sum(1 for c, r in done if r["exc"]),
         "bracketed_cases": sum(1 for c, r in done if bracketed(c["b"])),
+        "must_restore_cases": sum(1 for c, r in done if must_restore(c["b"])),
         "decorated_functions_found": fnames,
         "reflection_calls": nreflect,
         "exhaustive": False,
@@ -355,7 +363,7 @@ def replay(chk, path):
     rc, out, err = lib.run_worker("drive/c20.py", {"mode": "blocks", "cases": cases})
     bad = 0
     for c, r in zip(cases, out):
-        ok = not bracketed(c["b"]) or (eff(r["e0"]) == eff(r["e1"]) and r["e1"][3] == 0)
+        ok = not must_restore(c["b"]) or (eff(r["e0"]) == eff(r["e1"]) and r["e1"][3] == 0)
         print(("ok   " if ok else "FAIL ") + json.dumps(c["b"])[:200], r["e0"], "->", r["e1"])
         bad += not ok
     return 1 if bad else 0
